@@ -772,7 +772,7 @@ class ShapedEncoding(LazyIndexMap):
         nn = self._shape.count(-1)
         size = np.prod(self._shape)
         if nn == 1:
-            size = np.abs(size)
+            size = int(np.abs(size))
             if self._data.size % size != 0:
                 raise ValueError(
                     "cannot reshape encoding of size %d into shape %s",
@@ -780,7 +780,7 @@ class ShapedEncoding(LazyIndexMap):
                     str(self._shape),
                 )
 
-            rem = self._data.size // size
+            rem = int(self._data.size) // size
             self._shape = tuple(rem if s == -1 else s for s in self._shape)
         elif nn > 2:
             raise ValueError("shape cannot have more than one -1 value")
